@@ -152,8 +152,9 @@ class CallbackView(FuncInfo):
       own = (set(all_params[skip:]) - set(bound)) | {
           n.id for n in ast.walk(node) if isinstance(n, ast.Name) and
           isinstance(n.ctx, ast.Store)}
-      safe = {k: v for k, v in bound.items() if not any(
-          isinstance(x, ast.Name) and x.id in own for x in ast.walk(v))}
+      safe = {k: v for k, v in bound.items() if (
+          isinstance(v, ast.Name) and v.id == k) or not any(
+              isinstance(x, ast.Name) and x.id in own for x in ast.walk(v))}
 
       class _S(ast.NodeTransformer):
 
@@ -767,6 +768,21 @@ class Project:
       return outer.nested[passed[0]]
     if not cands:
       cb = self.callback_of(outer)
+      if cb is None:
+        # a module-level function `outer` calls that starts its own traversal
+        # (hands itself to begin / run): the recursive closure, lifted
+        selfstart = []
+        for hn, h in outer.module.funcs.items():
+          if h is outer or hn not in used:
+            continue
+          for c in ast.walk(h.node):
+            if isinstance(c, ast.Call) and unparse(c.func).split('.')[-1] in (
+                self._RUNNERS) and any(
+                    isinstance(a, ast.Name) and a.id == hn for a in c.args):
+              selfstart.append(h)
+              break
+        if len(selfstart) == 1:
+          cb = selfstart[0]
       if cb is None and getattr(self, 'ctx', None) is not None:
         # the closure written as a module-level function that takes its free
         # variables as parameters
@@ -775,6 +791,44 @@ class Project:
           cb = lifted[0]
       return cb
     return None
+
+  def through_delegation(self, f: FuncInfo, depth: int = 2) -> FuncInfo:
+    """`f`, or - when all f does is `return h(...)` / `yield from h(...)` with
+    h a function of the tree - h read with f's arguments in place of its
+    parameters and f's parameter list (a view; h itself is not changed)."""
+    while depth > 0 and f is not None and not f.is_lambda:
+      body = [st for st in f.node.body if not (
+          isinstance(st, ast.Expr) and isinstance(st.value, ast.Constant))]
+      if len(body) != 1:
+        break
+      st = body[0]
+      call = None
+      if isinstance(st, ast.Return) and isinstance(st.value, ast.Call):
+        call = st.value
+      elif isinstance(st, ast.Expr) and isinstance(
+          st.value, ast.YieldFrom) and isinstance(st.value.value, ast.Call):
+        call = st.value.value
+      if call is None:
+        break
+      h = self.funcs.get(self.resolve(call.func, f) or '')
+      ctx = getattr(self, 'ctx', None)
+      if h is None or h.is_lambda or h is f or ctx is None or (
+          h.cls is not None):
+        break
+      b = ctx.bound_args(call, f)
+      if b is None or set(b) != set(h.params):
+        break
+      outer = f.parent if isinstance(f.parent, FuncInfo) else f
+      view = CallbackView(h, 0, outer, b)
+      if set(view.params):
+        break   # some argument could not be substituted
+      import copy as _copy
+      view.node.args = _copy.deepcopy(f.node.args)
+      view.qualname = f.qualname
+      view.parent = f.parent
+      f = view
+      depth -= 1
+    return f
 
   def callbacks(self, outer: FuncInfo) -> List[FuncInfo]:
     """The local callbacks of `outer`: its nested functions, or - when it has
